@@ -54,7 +54,7 @@ AMBIENT = re.compile(
     r"^std::time::SystemTime::|^std::time::Instant::now$|^std::env::(var|var_os|vars|vars_os|args|args_os|current_dir|current_exe|temp_dir|home_dir)$|"
     r"^rand|^getrandom|^fastrand|std::hash::RandomState::new|std::collections::hash_map::RandomState::new|DefaultHasher|"
     r"^std::process::id$|^std::thread::current$|^std::thread::spawn$|^std::thread::scope$|"
-    r"std::fmt::Pointer|::addr$|expose_provenance|as_ptr$|^std::ptr::(hash|eq)$|^core::ptr::(hash|eq)$|<\*(const|mut) T as std::cmp::(Ord|PartialOrd)|^std::fs::read_dir$|^std::fs::metadata$|^std::fs::symlink_metadata$|^std::net::|^std::io::stdin$")
+    r"std::fmt::Pointer|::addr$|expose_provenance|^std::ptr::(hash|eq)$|^core::ptr::(hash|eq)$|<\*(const|mut) T as std::cmp::(Ord|PartialOrd)|^std::fs::read_dir$|^std::fs::metadata$|^std::fs::symlink_metadata$|^std::net::|^std::io::stdin$")
 
 
 def hash_evidence(b):
